@@ -510,3 +510,7 @@ def FZ(name, pkg, fuzz, fuzztime="120s", **kw):
 CHECKS["C13"]["jobs"] += [FZ("fuzz-request", VSASL, "FuzzC13Request", "90s"), FZ("fuzz-response", VSASL, "FuzzC13Response", "90s")]
 CHECKS["C02"]["jobs"] += [FZ("fuzz-hashfile", VSTORE, "FuzzC02HashFile", "150s")]
 CHECKS["C07"]["jobs"] += [FZ("fuzz-check", AGENT, "FuzzC07Check", "120s", toolchain="go126")]
+
+CHECKS["C15"]["jobs"].append(J("frontends-trace", VTRACE, "TestC15FrontendsTrace", {"shards": 4, "checks": 3}, {"shards": 16, "checks": 60}))
+CHECKS["C15"]["prebuild"] = DRV_PREBUILD + BIN_PREBUILD
+CHECKS["C15"]["required_classes"]["all"] += ["traced-frontend-request:sasl", "traced-frontend-request:ldap-bind"]
